@@ -276,10 +276,17 @@ def main(mod_id, tier, seed):
 
     inflight = []
 
+    task_timeout = float(os.environ.get('T4MC_TASK_TIMEOUT', '900'))
+    hung = []
+
     def drain(limit):
         while len(inflight) > limit:
-            r = inflight.pop(0)
-            consume([r.get()])
+            r, chunk = inflight.pop(0)
+            try:
+                consume([r.get(timeout=task_timeout)])
+            except mp.TimeoutError:
+                # the converter did not finish on these states: reported as a violation (class timeout)
+                hung.append(chunk)
 
     try:
         cost = 0
@@ -290,7 +297,7 @@ def main(mod_id, tier, seed):
                 break
             for s in active:
                 for c in gen_chunks(s, cost):
-                    inflight.append(pool.apply_async(_work, (c,)))
+                    inflight.append((pool.apply_async(_work, (c,)), c))
                     drain(4 * jobs)
                     if time.time() - t0 > budget:
                         cap_hit = True
@@ -322,6 +329,20 @@ def main(mod_id, tier, seed):
                     break
             if n >= 2:
                 break
+
+    if hung:
+        c = hung[0]
+        path = os.path.join(os.environ.get('T4MC_REPLAY_DIR') or os.path.join(VERIF, 'replays'),
+                            '%s-timeout-%s.json' % (mod_id, sha(c[2], c[3][0])))
+        os.makedirs(os.path.dirname(path), exist_ok=True)
+        with open(path, 'w') as f:
+            json.dump(dict(property=mod_id, tier=tier, scenario=c[2], traces=[list(t) for t in c[3]],
+                           classification={'kind': 'timeout'},
+                           message='no answer within %.0f s for one of these states' % task_timeout), f, indent=1)
+        print('VIOLATION property=%s replay=%s' % (mod_id, path))
+        print('  class={"kind": "timeout"} chunks=%d: the conversion of a generated state did not finish within %.0f s'
+              % (len(hung), task_timeout))
+        return 1
 
     # ---- harness errors
     if agg['harness']:
